@@ -1063,9 +1063,8 @@ func (r *Runtime) typedArrayProto_set(call FunctionCall) Value {
 			}
 			for i := 0; i < srcLen; i++ {
 				val := nilSafe(srcObj.self.getIdx(valueInt(i), nil))
-				if ta.isValidIntegerIndex(targetOffset + i) {
-					ta.typedArray.set(ta.offset+targetOffset+i, val)
-				}
+				// coerces the value first and only then re-checks that the buffer is still attached
+				ta._putIdx(targetOffset+i, val)
 			}
 		}
 		return _undefined
